@@ -7,23 +7,23 @@ def runs(quick, thorough=None):
 D, R = "dev", "release"
 
 PROPS = {
-    "C01": dict(runs=runs([("core", D), ("chunk", D), ("place", D), ("place", R), ("scan", D), ("chunk", R)],
-                          [("core", D), ("core", R), ("block", D), ("chunk", D), ("chunk", R), ("place", D), ("place", R), ("scan", D), ("scan", R), ("entries", D)]),
+    "C01": dict(runs=runs([("core", D), ("chunk", D), ("place", D), ("place", R), ("scan", D), ("chunk", R), ("hist", D)],
+                          [("core", D), ("core", R), ("block", D), ("chunk", D), ("chunk", R), ("place", D), ("place", R), ("scan", D), ("scan", R), ("entries", D), ("hist", D)]),
                 assumptions=["memory accesses are observed through guard pages and debug assertions, not proved: a stray access that stays inside mapped memory and changes no result is invisible",
                              "NEON loads are checked on the generated model only (no aarch64 here)"]),
     "C02": dict(runs=runs([("split", D), ("split", R), ("core", D)], [("split", D), ("split", R), ("core", D), ("block", D)])),
     "C03": dict(runs=runs([("core", D), ("core", R), ("block", D), ("chunk", D), ("place", D)])),
     "C04": dict(runs=runs([("core", D), ("core", R), ("block", D), ("entries", D)]),
                 assumptions=["the static half (lifetimes; no safe program can keep a field past its buffer) is decided by rustc's borrow checker and is not claimed as proved"]),
-    "C05": dict(runs=runs([("core", D), ("core", R), ("block", D), ("utf8", D), ("utf8", R), ("place", D)])),
-    "C06": dict(runs=runs([("core", D), ("core", R), ("utf8", D), ("utf8", R), ("place", D)]), determining=True),
+    "C05": dict(runs=runs([("core", D), ("core", R), ("core", "dev-native"), ("block", D), ("utf8", D), ("utf8", R), ("place", D)])),
+    "C06": dict(runs=runs([("core", D), ("core", R), ("core", "dev-native"), ("core", "dev-nosimd"), ("utf8", D), ("utf8", R), ("place", D)]), determining=True),
     "C07": dict(runs=runs([("core", D), ("core", R), ("place", D)]), determining=True),
-    "C08": dict(runs=runs([("core", D), ("core", R), ("core", "dev-sse42"), ("core", "dev-nosimd"), ("block", D), ("place", D)]), determining=True),
+    "C08": dict(runs=runs([("core", D), ("core", R), ("core", "dev-sse42"), ("core", "dev-nosimd"), ("core", "dev-native"), ("block", D), ("place", D)]), determining=True),
     "C09": dict(runs=runs([("chunk", D), ("chunk", R)]), determining=True),
-    "C10": dict(runs=runs([("core", D), ("core", R), ("block", D)]), determining=True),
+    "C10": dict(runs=runs([("core", D), ("core", R), ("block", D), ("classes", D)]), determining=True),
     "C11": dict(runs=runs([], [])),   # two-pass witness pipeline, see special_c11
-    "C12": dict(runs=runs([("scan", D), ("scan", "dev-sse42"), ("scan", "dev-avx2"), ("scan", "dev-nosimd"), ("swar", D), ("classes", D)],
-                          [("scan", D), ("scan", R), ("scan", "dev-sse42"), ("scan", "dev-avx2"), ("scan", "dev-nosimd"), ("swar", D), ("classes", D)]), determining=True,
+    "C12": dict(runs=runs([("scan", D), ("scan", "dev-sse42"), ("scan", "dev-avx2"), ("scan", "dev-nosimd"), ("scan", "dev-native"), ("swar", D), ("swar", "dev-native"), ("classes", D)],
+                          [("scan", D), ("scan", R), ("scan", "dev-sse42"), ("scan", "dev-avx2"), ("scan", "dev-nosimd"), ("scan", "dev-native"), ("swar", D), ("swar", "dev-native"), ("classes", D)]), determining=True,
                 trusted=["lane semantics of the x86 intrinsics (validated against the real instructions by the scan family)",
                          "lane semantics of the NEON intrinsics and tools/neon2lean.py (not executable here)"]),
     "C13": dict(runs=runs([("place", D), ("place", R), ("scan", D), ("scan", R), ("chunk", D), ("chunk", R), ("core", D), ("core", R)]),
@@ -32,7 +32,7 @@ PROPS = {
     "C14": dict(runs=runs([("block", D), ("block", R), ("core", D), ("place", D)]), determining=True),
     "C15": dict(runs=runs([("cfgpair", D), ("cfgpair", R)])),
     "C16": dict(runs=runs([("entries", D), ("entries", R), ("hrel", D)])),
-    "C17": dict(runs=runs([("core", D), ("entries", D), ("entries", R), ("caps", D)])),
+    "C17": dict(runs=runs([("core", D), ("entries", D), ("entries", R), ("caps", D), ("place", D)])),
     "C18": dict(runs=runs([("hist", D), ("hist", R)])),
     "C20": dict(runs=runs([("core", D), ("block", D), ("chunk", D)]),
                 assumptions=["wall-clock time is not modelled; the claim is about counted cursor travel and block loads"]),
@@ -46,28 +46,28 @@ C13_VARIANTS = {
     # variant: BuildEnv bits  std miri disable ge159 parsed disct flok sse42 avx2
     "dev": "100110100", "release": "100110100",
     "dev-sse42": "100110110", "dev-avx2": "100110111", "dev-nosimd": "101110100",
-    "dev-runtimeonly": "100111111", "dev-nostd": "000110100",
+    "dev-runtimeonly": "100111111", "dev-nostd": "000110100", "dev-native": "100110111",
     "release-sse42": "100110110", "release-avx2": "100110111", "release-nosimd": "101110100", "release-nostd": "000110100",
 }
 
 
-def special_c11(tier, seed, th, chk):
+def special_c11_one(tier, seed, th, chk, variant):
     """two passes: (1) every generated case on the real code; for each Partial result the MODEL picks a
     completion witness from the finite completion set (driver witness); (2) the real code must
     complete on buffer ++ witness (or one of the two stated exceptions applies)."""
     import subprocess, os, time, glob, json
     from concurrent.futures import ThreadPoolExecutor
-    cdir = os.path.join(chk.BUILD, "cache", th, "c11-%s-%s" % (tier, seed))
+    cdir = os.path.join(chk.BUILD, "cache", th, "c11-%s-%s-%s" % (tier, seed, variant))
     res_path = os.path.join(cdir, "result.json")
-    with chk.Lock("c11-" + tier):
+    with chk.Lock("c11-" + tier + "-" + variant):
         if os.path.exists(res_path):
             r = json.load(open(res_path)); r["cached"] = True
             return [r]
         t0 = time.time()
         os.makedirs(cdir, exist_ok=True)
-        binp, err = chk.build_harness("dev")
+        binp, err = chk.build_harness(variant)
         if binp is None:
-            return [{"family": "witness", "variant": "dev", "build_failed": True, "log": err, "fails": [], "stats": {}, "samples": {}, "n": 0, "wall": 0}]
+            return [{"family": "witness", "variant": variant, "build_failed": True, "log": err, "fails": [], "stats": {}, "samples": {}, "n": 0, "wall": 0}]
         fams = ["core", "chunk"] + (["block"] if tier == "thorough" else ["block"])
         allc = os.path.join(cdir, "all.cases")
         with open(allc, "w") as f:
@@ -98,10 +98,16 @@ def special_c11(tier, seed, th, chk):
         fails, stats, samples = chk.run_cases(binp, witc, cdir)
         os.remove(witc)
         stats["cases.pass1"] = n1
-        r = {"family": "witness(core+block+chunk)", "variant": "dev", "tier": tier, "seed": seed, "n": n2, "fails": chk.cap_per_prop(fails), "nfails": len(fails),
+        r = {"family": "witness(core+block+chunk)", "variant": variant, "tier": tier, "seed": seed, "n": n2, "fails": chk.cap_per_prop(fails), "nfails": len(fails),
              "stats": stats, "samples": samples, "wall": time.time() - t0, "cached": False}
         json.dump(r, open(res_path, "w"))
         return [r]
+
+
+def special_c11(tier, seed, th, chk):
+    """the witness pipeline under the default build and under `-C target-cpu=native` (code gated by target
+    features this CPU has beyond AVX2 would otherwise never run)"""
+    return special_c11_one(tier, seed, th, chk, "dev") + special_c11_one(tier, seed, th, chk, "dev-native")
 
 
 BORROW_ERRORS = {"E0597", "E0502", "E0499", "E0505", "E0506", "E0716", "E0515", "E0521", "E0712", "E0713", "E0503", "E0495", "E0621", "E0623"}
@@ -176,7 +182,7 @@ def large_stage(tier, seed, th, chk):
         out = []
         # dev-nosimd / dev-sse42: the SWAR and the SSE4.2 scanners as *the* scanner (on this AVX2 machine they
         # otherwise only see the last < 32 bytes of a run), so that work they add shows in the time
-        for variant in ("dev", "release", "dev-o0", "dev-nosimd", "dev-sse42"):
+        for variant in ("dev", "release", "dev-o0", "dev-nosimd", "dev-sse42", "dev-avx2"):
             t0 = time.time()
             binp, err = chk.build_harness(variant)
             if binp is None:
@@ -218,6 +224,8 @@ def large_stage(tier, seed, th, chk):
                     st = str(r.get("status", ""))
                     if fam != "partial-folds" and not (st.startswith("C:%d:" % size)):
                         fails.append("FAIL C03 hard | a complete head of known length is not reported as Complete(that length) | cost %s size=%d (%s build) | status=%s" % (fam, size, variant, st))
+                    if fam == "many-small-headers-lf" and st.startswith("C:") and int(st.split(":")[2]) != (size - 16) // 4:
+                        fails.append("FAIL C17 hard | number of exposed headers differs from the number of header lines | cost %s size=%d (%s build) | status=%s" % (fam, size, variant, st))
                     if fam == "many-small-headers" and st.startswith("C:") and int(st.split(":")[2]) != (size - 18) // 5:
                         fails.append("FAIL C17 hard | number of exposed headers differs from the number of header lines | cost %s size=%d (%s build) | status=%s" % (fam, size, variant, st))
                     if r["adv"] > size or r["pk"] + r["l16"] + r["l32"] > size + 8:
@@ -249,6 +257,119 @@ def large_stage(tier, seed, th, chk):
                         fails.append("FAIL C20 hard | the time of one call follows the capacity of the header array, not the buffer length (%d ns with 16 slots, %d ns with 2^20 slots for the same %s message; persisted over 4 measurements) | cost capacity (hxharness cost %d %d 9 capacity, %s build) | %s" % (t16, worst, entry, small, factor, variant, entry))
             out.append({"family": "large(G10)", "variant": variant, "n": n, "fails": fails, "nfails": len(fails),
                         "stats": {"cases.large": n, "nontrivial.large": n}, "samples": samples, "wall": time.time() - t0, "cached": False})
+        json.dump(out, open(res_path, "w"))
+        return out
+
+
+
+SCALE_PROPS = ("C02", "C03", "C06", "C07", "C08", "C10", "C11", "C16", "C17")
+
+
+def scale_stage(tier, seed, th, chk):
+    """G14 (see harness/src/gen.rs): each adversarial family at two small sizes (where the ordinary families tie
+    the code to the model) and one huge size; every reported number must be the affine extrapolation of the two
+    small observations, the kind of answer must be the same, and the entry points must agree.  One run per tree
+    (dev and release), findings labelled for the property whose statement the deviation contradicts."""
+    import subprocess, time, os, json, re
+    cdir = os.path.join(chk.BUILD, "cache", th, "scale-%s" % tier)
+    res_path = os.path.join(cdir, "result.json")
+    with chk.Lock("scale"):
+        if os.path.exists(res_path):
+            out = json.load(open(res_path))
+            for r in out:
+                r["cached"] = True
+            return out
+        os.makedirs(cdir, exist_ok=True)
+        big = (9 << 20) if tier == "quick" else (40 << 20)
+        out = []
+        for variant in ("dev", "release"):
+            t0 = time.time()
+            binp, err = chk.build_harness(variant)
+            if binp is None:
+                out.append({"family": "scale(G14)", "variant": variant, "build_failed": True, "log": err, "fails": [], "stats": {}, "samples": {}, "n": 0, "wall": 0})
+                continue
+            try:
+                pr = subprocess.run([binp, "scale", str(big)], capture_output=True, text=True, env=chk.ENV, timeout=3000)
+                o, rc = pr.stdout, pr.returncode
+            except subprocess.TimeoutExpired as ex:
+                o, rc = ((ex.stdout or b"").decode(errors="replace") if isinstance(ex.stdout, bytes) else (ex.stdout or "")), -14
+            fails, samples, n = [], {}, 0
+
+            def fail(props, note, key, detail):
+                for p in sorted(set(props)):
+                    fails.append("FAIL %s hard | %s | scale %s (hxharness scale %d %s, %s build) | %s" % (p, note, " ".join(key), big, key[0], variant, detail))
+            if rc != 0:
+                begun = [l for l in o.splitlines() if l.startswith("begin ")]
+                last = (begun[-1] if begun else "begin ? ? ? ?").split()
+                fail(("C01", "C20"), "parsing a scaled-up family member crashed or did not return within the 120 s watchdog", tuple(last[1:5]), "rc=%s" % rc)
+            rows = {}
+            line_cfg = {}
+            for l in o.splitlines():
+                t = l.split()
+                if len(t) < 9 or t[0] != "scale":
+                    continue
+                key = tuple(t[1:5])           # family kind variation entry
+                ln = int(t[6].split("=")[1])
+                rest = " ".join(t[7:])
+                line_cfg[key] = t[5]
+                rows.setdefault(key, []).append((ln, t[7], [int(x) for x in re.findall(r"\d+", " ".join(t[8:]))], re.sub(r"\d+", "#", rest), rest))
+            kind_props = {"req": "C06", "resp": "C07", "hdrs": "C08", "chunk": "C09"}
+            for key, rs in sorted(rows.items()):
+                rs.sort()
+                n += 1
+                if len(rs) != 3:
+                    continue
+                (l1, t1, v1, s1, r1), (l2, t2, v2, s2, r2), (l3, t3, v3, s3, r3) = rs
+                kp = kind_props[key[1]]
+                if not (t1 == t2):
+                    continue      # the two small members already differ in kind: no extrapolation to make
+                if t3 != t1:
+                    props = ["C03"]
+                    if t1 == "C":
+                        props += [kp, "C16"] + (["C17"] if "TooManyHeaders" in t3 else []) + (["C10"] if t3.startswith("E") else []) + (["C02", "C11"] if t3 == "P" else [])
+                    elif t1 == "P":
+                        props += ["C02"] + (["C10", "C17"] if t3.startswith("E") else [kp])
+                    else:
+                        props += ["C10", kp] + (["C11", "C02"] if t3 == "P" else [])
+                    fail(props, "the answer changes kind when the same message is scaled up (%s at %d and %d bytes, %s at %d bytes)" % (t1, l1, l2, t3, l3), key, "small: [%s] huge: [%s]" % (r2, r3))
+                    continue
+                if not (s1 == s2 == s3 and len(v1) == len(v2) == len(v3)):
+                    if s1 == s2:
+                        fail(["C03", kp, "C17"], "the shape of the result changes when the same message is scaled up", key, "small: [%s] huge: [%s]" % (r2, r3))
+                    continue
+                names = re.findall(r"([a-z]+)=", r1)
+                for i, (a, b, c) in enumerate(zip(v1, v2, v3)):
+                    if (c - a) * (l2 - l1) != (b - a) * (l3 - l1):
+                        props = ["C03"] if i == 0 else (["C17"] if i == 1 else [kp, "C08"])
+                        fail(props, "a reported number is not the affine extrapolation of the two small members (number %d of the observation: %d at %d bytes, %d at %d bytes, %d at %d bytes)" % (i, a, l1, b, l2, c, l3), key, "small: [%s] huge: [%s]" % (r2, r3))
+                        break
+            # entry points agree on the huge member
+            by = {}
+            for key, rs in rows.items():
+                for (ln, tg, v, sk, rest) in rs:
+                    # (`parse` / `parse_uninit` take no configuration: they agree with the others under the default only)
+                    grp = "plain" if (key[3].startswith("parse") and " cfg=0 " not in " " + line_cfg.get(key, "cfg=0") + " ") else "cfg"
+                    by.setdefault((key[0], key[1], key[2], ln, grp), {})[key[3]] = rest
+            for k4, per in sorted(by.items()):
+                if len(set(per.values())) > 1:
+                    fail(["C16"], "entry points disagree on the same buffer, configuration and capacity", (k4[0], k4[1], k4[2], "all-entries"), json.dumps(per)[:600])
+            # parse_headers on the header block alone answers like the request / response that contains it
+            for key, rs in sorted(rows.items()):
+                if key[1] == "hdrs":
+                    for mk in ("req", "resp"):
+                        other = rows.get((key[0], mk, key[2], "cfg"))
+                        if not other or len(other) != len(rs):
+                            continue
+                        for (lh, th_, vh, _, rh), (lm, tm, vm, _, rm) in zip(sorted(rs), sorted(other)):
+                            same = th_ == tm and (th_ != "C" or (vh[1] == vm[1] and vm[0] - vh[0] == lm - lh))
+                            if not same:
+                                fail(["C16"], "parse_headers on the header block and the %s parse of start line + block disagree (status / header count / consumed length)" % mk,
+                                     (key[0], "hdrs-vs-" + mk, key[2], "cfg"), "hdrs %d bytes: [%s] %s %d bytes: [%s]" % (lh, rh, mk, lm, rm))
+                                break
+            for key, rs in list(rows.items())[:3]:
+                samples["scale." + ".".join(key)] = "; ".join("%d bytes: %s" % (x[0], x[4][:80]) for x in sorted(rs))
+            out.append({"family": "scale(G14)", "variant": variant, "n": n, "fails": fails[:400], "nfails": len(fails),
+                        "stats": {"cases.scale": n, "nontrivial.scale": n}, "samples": samples, "wall": time.time() - t0, "cached": False})
         json.dump(out, open(res_path, "w"))
         return out
 
@@ -321,20 +442,23 @@ def special_miri(prop, tier, seed, th, chk):
 
 def special(prop, tier, seed, th, chk):
     import subprocess, json, os, time
-    if prop in ("C01", "C17"):
-        return special_miri(prop, tier, seed, th, chk) + large_stage(tier, seed, th, chk)
+    sc = scale_stage(tier, seed, th, chk) if (prop in SCALE_PROPS or prop in ("C01", "C20")) else []
+    if prop == "C01":
+        return special_miri(prop, tier, seed, th, chk) + large_stage(tier, seed, th, chk) + sc
+    if prop == "C17":
+        return special_miri(prop, tier, seed, th, chk) + large_stage(tier, seed, th, chk) + sc
     if prop == "C03":
-        return large_stage(tier, seed, th, chk)
+        return large_stage(tier, seed, th, chk) + sc
     if prop == "C04":
         return special_c04(tier, seed, th, chk)
     if prop == "C20":
-        return special_c20(tier, seed, th, chk)
+        return special_c20(tier, seed, th, chk) + sc
     if prop == "C11":
-        return special_c11(tier, seed, th, chk)
+        return special_c11(tier, seed, th, chk) + sc
     if prop != "C13":
-        return None
+        return sc or None
     out = []
-    variants = ["dev", "release", "dev-sse42", "dev-avx2", "dev-nosimd", "dev-runtimeonly", "dev-nostd"]
+    variants = ["dev", "release", "dev-sse42", "dev-avx2", "dev-nosimd", "dev-runtimeonly", "dev-nostd", "dev-native"]
     if tier == "thorough":
         variants += ["release-sse42", "release-avx2", "release-nosimd", "release-nostd"]
     fails, stats, samples = [], {}, {}
